@@ -126,7 +126,9 @@ func (s *Service) submitValidatorRegistrationsForAccounts(ctx context.Context,
 			relayRegistrations,
 		)
 		if err != nil {
-			return err
+			// Carry on with the other accounts.
+			s.log.Error().Err(err).Msg("Failed to generate validator registrations for account")
+			continue
 		}
 		consensusRegistrations = append(consensusRegistrations, accountConsensusRegistrations...)
 	}
